@@ -147,7 +147,9 @@ class Directive(Base):
     ]
 
     @show_result
-    def __new__(cls, string: Union[str, FortranReaderBase], parent_cls=None):
+    def __new__(
+        cls, string: Union[str, FortranReaderBase], parent_cls=None, _deepcopy=False
+    ):
         """
         Create a new Directive instance.
 
@@ -155,9 +157,14 @@ class Directive(Base):
         :param string: (source of) Fortran string to parse.
         :param parent_cls: the parent class of this object.
         :type parent_cls: :py:type:`type`
+        :param bool _deepcopy: whether this instance is being created by a
+            deep-copy or unpickling operation (its state is set afterwards).
 
         """
         from fparser.common import readfortran
+
+        if _deepcopy:
+            return object.__new__(cls)
 
         if isinstance(string, readfortran.Comment):
             # Inline comments cannot be directives.
@@ -199,6 +206,13 @@ class Directive(Base):
         # We didn't get a directive
         return
 
+    def __getnewargs__(self):
+        """
+        :returns: the arguments for __new__() when copying or unpickling.
+        :rtype: tuple[NoneType, NoneType, bool]
+        """
+        return (None, None, True)
+
     def init(self, comment) -> None:
         """
         Initialise this Directive from a comment object.
@@ -224,7 +238,7 @@ class Comment(Base):
     subclass_names = []
 
     @show_result
-    def __new__(cls, string, parent_cls=None):
+    def __new__(cls, string, parent_cls=None, _deepcopy=False):
         """
         Create a new Comment instance.
 
@@ -233,9 +247,14 @@ class Comment(Base):
         :type string: str or :py:class:`FortranReaderBase`
         :param parent_cls: the parent class of this object.
         :type parent_cls: :py:type:`type`
+        :param bool _deepcopy: whether this instance is being created by a
+            deep-copy or unpickling operation (its state is set afterwards).
 
         """
         from fparser.common import readfortran
+
+        if _deepcopy:
+            return object.__new__(cls)
 
         if isinstance(string, readfortran.Comment):
             # We were after a comment and we got a comment. Construct
@@ -259,6 +278,13 @@ class Comment(Base):
         else:
             # We didn't get a comment
             return
+
+    def __getnewargs__(self):
+        """
+        :returns: the arguments for __new__() when copying or unpickling.
+        :rtype: tuple[NoneType, NoneType, bool]
+        """
+        return (None, None, True)
 
     def init(self, comment):
         """
